@@ -115,7 +115,9 @@ let () =
               | _ -> "na") in
           (* the certified checker (Design/SemEqvTB.v sem_eqv_tb, sound by Properties/T2d.v T2d_checker_sound) *)
           let semb = (match DerivedCheck.t2d_check p with Some true -> "true" | Some false -> "false" | None -> "na") in
-          gd ^ "create=ok flat=" ^ flats ^ " fails=" ^ fails ^ " doc=" ^ docs ^ " sem=" ^ sems ^ " semb=" ^ semb))
+          (* guard2: the narrower guard of the unconditional theorem T2d_derived_sem_eqv (Front/DerivedGuard2.v) *)
+          let g2 = " guard2=" ^ show_bool (DerivedGuard2.t2d_guard2 p) in
+          gd ^ "create=ok flat=" ^ flats ^ " fails=" ^ fails ^ " doc=" ^ docs ^ " sem=" ^ sems ^ " semb=" ^ semb ^ g2))
     | _ -> "!args")
 
 (* diagnostics: (t2dshow PROGRAM) -> code_sem of the created flat record | doc_sem *)
